@@ -264,7 +264,15 @@ class DIMSEServiceProvider:
         if self.message is None:
             self.message = DIMSEMessage()
 
-        if self.message.decode_msg(primitive, self.assoc):
+        try:
+            is_complete = self.message.decode_msg(primitive, self.assoc)
+        except Exception as exc:
+            LOGGER.error("Received an invalid DIMSE message")
+            LOGGER.exception(exc)
+            self.dul.event_queue.put("Evt19")
+            return
+
+        if is_complete:
             # Trigger event
             evt.trigger(self.assoc, evt.EVT_DIMSE_RECV, {"message": self.message})
 
